@@ -8,7 +8,7 @@ frames, replies to older/unknown ids, random bytes.  Oracle: no sanitizer report
 recent query ids (or not the expected first character) causes no tun write and leaves the reassembly state unchanged.
 Theorems: Props/C06.lean (answer decoding never faults and uses the datagram's own bytes only; the login reply path runs at most two
 commands made of validated text)."""
-import random, struct
+import os, random, struct
 import vlib
 import iodproto as P
 import iodclient as C
@@ -172,7 +172,21 @@ def run(chk):
     chk.notes["client_ops"] = nops
     for r in res[:2]:
         chk.sample({"cfg": r["cfg"], "handshake": str(r["handshake"]), "client_ops": r["ncops"]})
-    W.report_client_model(chk, res, "C06")
+    # directed handshake runs (checks/hs_corr.py): lossy / hostile / relay-family / wrong-password / lost-raw-login handshakes, so that every retry
+    # loop and failure exit of client_handshake() is reached; a harness abort there is a C06 violation, every op is diffed against the handshake model
+    import hs_corr
+    from concurrent.futures import ProcessPoolExecutor
+    with ProcessPoolExecutor(min(16, os.cpu_count() or 4)) as ex:
+        res2 = list(ex.map(hs_corr.one, [(chk.seed * 100000 + k,) for k in range(480 if thorough else 160)]))
+    rets = {}
+    for r in res2:
+        rets[str(r["handshake"])] = rets.get(str(r["handshake"]), 0) + 1
+        if r["dead"]:
+            chk.violation("C06 fails on the implementation: the client harness aborted during a %s handshake (rc=%s) on: %s\n%s" % (r["kind"], r["dead"][1], r["dead"][0], r["dead"][2]),
+                          ["C " + o for o in r["cops"]], key="c06:hs-abort")
+    chk.notes["directed_handshakes"] = {"runs": len(res2), "results": rets}
+    chk.cov["traces_validated_against_impl"] = len(res) + len(res2)
+    W.report_client_model(chk, res + res2, "C06")
     W.report_server_model(chk, res, "C06")
     if not chk.violations and not proof_ok:
         chk.violation("proof obligation no longer checks: " + chk.proof_detail,
